@@ -21,7 +21,14 @@ def handle : List Sx → Sx
               | .error _ => false
             else det
           | _ => det
-        .list [.atom "rows", .atom (if det then "1" else "0"), encRows rows]
+        -- the result without LIMIT/OFFSET (for tie-robust comparison of limited queries)
+        let full := match qq with
+          | .core c =>
+            match (Query.core { c with limit := none, offset := 0 }).eval d with
+            | .ok f => f
+            | .error _ => rows
+          | _ => rows
+        .list [.atom "rows", .atom (if det then "1" else "0"), encRows rows, encRows full]
       | .error e => encErr e
     | _, _ => .atom "bad-request"
   | _ => .atom "bad-request"
